@@ -193,6 +193,7 @@ enum K {
     Abort,
     DropHandle,
     IsFinished,
+    JoinProbe,
     Rand,
     Skip,
     Assert,
@@ -222,7 +223,7 @@ fn menu(cfg: &GenCfg) -> Vec<K> {
         Family::Sem => vec![Acquire, Acquire, Acquire, TryAcquire, TryAcquire, Release, Release, Release, Close, Avail, ALoad, AStore],
         Family::SemAsync => vec![Acquire, Acquire, TryAcquire, Release, Release, Release, Close, Avail, AcqStart, AcqStart, AcqStart, AcqFinish, AcqFinish, AcqDrop, AcqDrop, Yield],
         Family::SemChain => vec![AcqStart, AcqStart, AcqStart, AcqStart, AcqFinish, AcqFinish, AcqDrop, AcqDrop, Acquire, TryAcquire, Release, Release],
-        Family::Async => vec![EvWait, EvWait, EvWait, EvSet, EvSet, EvSet, EvWake, Yield, Yield, Abort, Abort, DropHandle, IsFinished, IsFinished, ALoad, AStore, Lock, Unlock, Park, Unpark],
+        Family::Async => vec![EvWait, EvWait, EvWait, EvSet, EvSet, EvSet, EvWake, Yield, Yield, Abort, Abort, DropHandle, IsFinished, IsFinished, JoinProbe, JoinProbe, ALoad, AStore, Lock, Unlock, Park, Unpark],
         Family::AsyncBlock => vec![EvWaitLock, EvWaitLock, EvWaitRecv, EvWaitRecv, EvSet, EvSet, EvSet, EvWake, Lock, Lock, Unlock, Send, Send, Send, Yield],
         Family::Threads => vec![Tls, Tls, Tls, Tls, Lazy, StaticOnce, Label, Yield, Yield, ALoad, AStore, AFetchAdd, Lock, Unlock, MAdd],
         Family::Mixed => vec![
@@ -558,6 +559,7 @@ pub fn build(raw: &RawProg, cfg: &GenCfg) -> (Prog, FixStats) {
                 K::Abort => ops.push(Op::Abort(usize::MAX - (r.obj as usize % 7))),
                 K::DropHandle => ops.push(Op::DropHandle(usize::MAX - (r.obj as usize % 7))),
                 K::IsFinished => ops.push(Op::IsFinished(usize::MAX - (r.obj as usize % 7))),
+                K::JoinProbe => ops.push(Op::JoinProbe(usize::MAX - (r.obj as usize % 7))),
                 K::Rand => ops.push(Op::Rand(2 + (r.val % 2) as u64)),
                 K::Skip => {
                     // guard the next op(s) on the last observation
@@ -741,6 +743,11 @@ pub fn build(raw: &RawProg, cfg: &GenCfg) -> (Prog, FixStats) {
                 Op::IsFinished(m) if m > 1 << 40 => {
                     if let Some(c) = res(m) {
                         new_ops.push(Op::IsFinished(c))
+                    }
+                }
+                Op::JoinProbe(m) if m > 1 << 40 => {
+                    if let Some(c) = res(m) {
+                        new_ops.push(Op::JoinProbe(c))
                     }
                 }
                 o => new_ops.push(o),
